@@ -79,7 +79,11 @@ def who_may_defer(ck, C, b):
             if isinstance(cs, tuple):
                 continue
             v = T.agg_variant(body, cs.args[1]) if len(cs.args) > 1 else set()
-            ck.verdict(v == {(PA, want)}, C, "T6-provenance", body, "deferred-value", "%s defers PostAction::%s" % (q, want), "%s defers %s instead of %s" % (q, sorted(v), want), site=body.where(cs.bb))
+            # .. and nothing else: a value computed from what the cell already held (`earlier | action`: Reregister |
+            # Disable is Reregister, so an update() followed by a disable() in one callback would lose the disable) is
+            # not "the last request wins"
+            computed = sorted({r[0] + (":" + (body.call_at(r[1]).name or "?") if r[0] == "call" else "") for r, p_ in body.resolve(cs.args[1]) if r[0] not in ("agg", "const")}) if len(cs.args) > 1 else []
+            ck.verdict(v == {(PA, want)} and not computed, C, "T6-provenance", body, "deferred-value", "%s defers PostAction::%s" % (q, want), "%s defers %s%s instead of %s" % (q, sorted(v), (" or a value computed from " + ", ".join(computed)) if computed else "", want), site=body.where(cs.bb))
             ok = False
             from props import common as _cm
 
@@ -117,7 +121,8 @@ def run(ck):
         if st["pl"]["p"]:
             continue
         take_dests = {cs.dest["l"] for cs in takes if not cs.dest["p"]}
-        if (T.copy_chain_locals(b, st["rv"]["o"]) & take_dests) and f.adt_path(st["pl"]["t"]) == PA:
+        org = T.place_origin(b, st["rv"]["o"])  # .. also through the environment of a closure expanded in place
+        if ((T.copy_chain_locals(b, st["rv"]["o"]) & take_dests) or (org is not None and org[0] in take_dests and all(x == "*" for x in org[1]))) and f.adt_path(st["pl"]["t"]) == PA:
             # skip the copy chain temporaries: keep stores into a local that is later switched on
             merges.append((i, j, st))
     # the merged variable is the one the post-action switch looks at
@@ -204,7 +209,7 @@ def run(ck):
         for cs in sites:
             ck.verdict(only_via(cs.bb, arm), "3", "T4-guarded-by", b, "arm:%s/site:%s" % (arm, what), "%s is applied only on the %s arm" % (what, arm), "%s is reachable from the post-action switch outside the %s arm" % (what, arm), site=b.where(cs.bb))
             ck.verdict(b.resolve(cs.args[0]) == disp_roots, "3", "T6-provenance", b, "arm:%s/receiver" % arm, "the receiver is the dispatcher whose events were just processed", "the receiver is not the dispatcher that was just processed: %s" % b.roots_str(cs.args[0]), site=b.where(cs.bb))
-        bad = T.t2_all_exits(b, list(arms[arm]), [cs.bb for cs in sites], exits=dl.exits, removed_edges=[e for e in [x for a, es in arms.items() if a != arm for x in es]])
+        bad = T.t2_all_exits(b, [e + (T.variant_discr(f, PA, arm),) for e in arms[arm]], [cs.bb for cs in sites], exits=dl.exits, removed_edges=[e for e in [x for a, es in arms.items() if a != arm for x in es]])
         ck.verdict(bad is None, "3", "T2-all-exits", b, "arm:%s/must-apply" % arm, "every path through the %s arm performs the %s" % (arm, what), "a path through the %s arm skips the %s" % (arm, what), site=b.where(sw), path=path_descr(b, bad) if bad else None)
     # tokens handed to reregister/unregister derive from this iteration's event token
     for cs in T.calls(b, name="new", path="TokenFactory::new") + T.calls(b, name="new", path="RegistrationToken::new"):
@@ -221,7 +226,7 @@ def run(ck):
         ck.verdict(any(x[1] == "None" for x in v), "3", "T6-provenance", b, "arm:Remove/store-None", "the slot is emptied", "the Remove arm stores %s into the slot" % sorted(v), site=b.where(i))
         gm = [cs for cs in T.calls(b, name=("get_mut", "get"), path="SourceList") if cs.bb in dl.blocks and T.resolves_to_call(b, st["pl"], [cs.bb])]
         ck.verdict(bool(gm) and all(ev_tok_ok(cs.args[1]) for cs in gm), "3", "T6-provenance", b, "arm:Remove/slot-of-this-token", "the cleared slot was looked up with this iteration's token", "the cleared slot is not the one looked up with this iteration's token", site=b.where(i))
-    bad = T.t2_all_exits(b, list(arms["Remove"]), [i for i, _, _ in rem_stores] + [cs.bb for cs in T.calls(b, name=("get_mut",), path="SourceList") if cs.bb in dl.blocks and False], exits=dl.exits, removed_edges=[x for a, es in arms.items() if a != "Remove" for x in es])
+    bad = T.t2_all_exits(b, [e + (T.variant_discr(f, PA, "Remove"),) for e in arms["Remove"]], [i for i, _, _ in rem_stores] + [cs.bb for cs in T.calls(b, name=("get_mut",), path="SourceList") if cs.bb in dl.blocks and False], exits=dl.exits, removed_edges=[x for a, es in arms.items() if a != "Remove" for x in es])
     if bad is not None:
         # acceptable only if the bypass is the lookup-miss edge of the generation-checked get_mut
         gm_bbs = [cs.bb for cs in T.calls(b, name="get_mut", path="SourceList") if cs.bb in dl.blocks and only_via(cs.bb, "Remove")]
@@ -244,6 +249,11 @@ def run(ck):
     from props import C06 as _C06x, common as _cmx
 
     _cmx.import_results(ck, _C06x, "2", "dispatch_events", "3")
+    # each event is dispatched to the dispatcher freshly looked up for it: one kept from the previous event of the batch
+    # would be handed events after its Remove was applied (shared with C01.3)
+    from props import C01 as _C01x
+
+    _cmx.import_results(ck, _C01x, "3", "dispatch_events", "3")
 
     # ---- clause 5: combination law --------------------------------------------------------------
     # decided by evaluating the MIR of `|` and `|=` on all 16 pairs of PostAction values (engine/bits/finite_eval.py):
